@@ -8,13 +8,16 @@
 (* only when the peer closes the stream or breaks framing.                 *)
 (*                                                                         *)
 (* Recipients: processes P1 (registered as "alpha"), P2; D (terminated     *)
-(* before the scenario), N (never existed); one outstanding remote call.   *)
+(* before the scenario), N (never existed), S1 (P1's number and serial     *)
+(* with the creation of another incarnation of the node) and F1 (P1's      *)
+(* number and serial on another node's name): four recipients that do not  *)
+(* exist here; one outstanding remote call.                                *)
 (* A local operation may terminate P2 between frames.                      *)
 (***************************************************************************)
 EXTENDS Integers, Sequences, FiniteSets, TLC
 CONSTANT MaxFrames
 Procs == {"P1", "P2"}
-Targets == {"P1", "P2", "D", "N"}
+Targets == {"P1", "P2", "D", "N", "S1", "F1"}
 Names == {"alpha", "ghost"}
 Good == {"send_pid", "send_name", "exit", "monitor_exit", "rpc_reply"}
 Junk == {"tick", "unknown_control", "generic_control", "undecodable", "wrong_marker", "bad_control", "control_not_tuple", "empty_tuple_control", "truncated_term"}
